@@ -149,7 +149,7 @@ class TWorld:
         }
         for k, v in headers:
             try:
-                v.encode('latin-1')
+                v.encode('ascii')
             except UnicodeEncodeError:
                 # PEP 3333: header bytes (here UTF-8) presented as a latin-1 decoded str
                 v = v.encode('utf-8').decode('latin-1')
